@@ -7,19 +7,28 @@
    [determine_flavor_w W], [determine_pseudo_phase_w W] (Model/CpcPhase.v) compute in an unsigned type of W
    values with the debug profile's overflow check as [Stuck]; W = 2^64 is the crate now, W = 2^32 the crate before. *)
 From DS Require Import Base.Prelude Model.Cpc Model.CpcUnion Model.CpcPhase Proofs.CpcSpec Proofs.CpcStep Proofs.CpcMain
-  Proofs.CpcUnionSpec Proofs.CpcUnionProofs Proofs.CpcOverflow.
+  Proofs.CpcUnionSpec Proofs.CpcUnionProofs Proofs.CpcOverflow Proofs.CpcCodec.
 Open Scope N_scope.
 
-(* update path: new, any stream of valid pairs in the domain, build_bit_matrix, validate *)
+(* update path: new, any stream of valid pairs in the domain (offset <= 56, surprising values within the table's
+   capacity: cpc_fits, see Props/C05.v), build_bit_matrix, validate.  Modelled panic sites: every debug_assert!/
+   assert!/expect/index of cpc/sketch.rs on this path and the capacity asserts of PairTable::rebuild. *)
 Theorem c17_cpc_update_no_stuck : forall lgk cs,
-  4 <= lgk <= 26 -> Forall (valid lgk) cs -> 8 * distinct cs < 475 * 2 ^ lgk ->
+  4 <= lgk <= 26 -> Forall (valid lgk) cs -> 8 * distinct cs < 475 * 2 ^ lgk -> cpc_fits lgk cs ->
   exists s, cpc_run lgk cs = Ok s /\ (exists m, build_bit_matrix s = Ok m) /\ cpc_validate s = Ok true.
 Proof. exact cpc_no_stuck. Qed.
 
-(* union path: any sequence of valid sketches whose result is in the domain; update and to_sketch *)
+(* both limits are real: outside the capacity the model is Stuck exactly where the crate panics (replayed) *)
+Theorem c17_cpc_table_capacity_needed :
+  Forall (valid 4) overflow_stream /\ 8 * distinct overflow_stream < 475 * 2 ^ 4 /\ cpc_run 4 overflow_stream = Stuck.
+Proof. exact table_capacity_needed. Qed.
+
+(* union path: any sequence of valid sketches whose result is in the domain; update and to_sketch
+   (usteps_fit / result_fits: the table-capacity conditions of Props/C06.v) *)
 Theorem c17_cpc_union_no_stuck : forall lg0 l,
   4 <= lg0 <= 26 -> Forall (fun x => Vin (fst (fst x)) (snd (fst x)) (snd x)) l ->
   dom (uspec lg0 (ins_of l)) ->
+  usteps_fit (lg0, mzero) (ins_of l) -> result_fits (fst (uspec lg0 (ins_of l))) (snd (uspec lg0 (ins_of l))) ->
   exists u s, union_of lg0 (map (fun x => fst (fst x)) l) = Ok u /\ union_to_sketch u = Ok s.
 Proof. exact cpc_union_no_stuck. Qed.
 
@@ -38,7 +47,15 @@ Theorem c17_cpc_pseudo_phase_no_stuck : forall lgk c, 4 <= lgk <= 26 -> c < 2 ^ 
   exists p, determine_pseudo_phase_w (2 ^ 64) lgk c = Ok p /\ p < 22.
 Proof. exact pseudo_phase_no_stuck. Qed.
 
-(* the u32 arithmetic was exact only below 2^27 coupons / lg_k <= 20 and 1000 C < 2^32 ... *)
+(* serialization path (CpcSketch::serialize / deserialize at every lg_k, incl. lg_k >= 21 with a window): the
+   compressor has no full Coq model; its modelled panic sites are the table indices - the pseudo phase indexes one of
+   the 22 coding tables (above) and, in the Sliding flavor, one of the 16 column permutations: *)
+Theorem c17_cpc_sliding_phase_lt_16 : forall lgk c, 4 <= lgk -> 27 * 2 ^ lgk <= 8 * c ->
+  exists p, determine_pseudo_phase lgk c = Ok p /\ p < 16.
+Proof. exact sliding_phase_lt_16. Qed.
+
+(* HISTORICAL (the code before the repair, kept to document the defect): the u32 arithmetic was exact only below
+   2^27 coupons / lg_k <= 20 and 1000 C < 2^32 ... *)
 Theorem c17_cpc_flavor_u32_exact_partial : forall lgk c, lgk <= 26 -> c < 2 ^ 27 ->
   determine_flavor_w (2 ^ 32) lgk c = Ok (determine_flavor lgk c).
 Proof. exact flavor_u32_exact_small. Qed.
@@ -47,7 +64,7 @@ Theorem c17_cpc_pseudo_phase_u32_exact_partial : forall lgk c, lgk <= 20 -> 1000
   determine_pseudo_phase_w (2 ^ 32) lgk c = determine_pseudo_phase lgk c.
 Proof. exact pseudo_phase_u32_exact_small. Qed.
 
-(* ... and wrong beyond: lg_k 26 with 2^27 coupons was reported Sparse instead of Pinned (serialize() then divided
+(* HISTORICAL: ... and wrong beyond: lg_k 26 with 2^27 coupons was reported Sparse instead of Pinned (serialize() then divided
    by zero, also in release builds); lg_k 21 with 1 049 576 coupons: multiply overflow in debug, table 8 instead of
    16 in release; lg_k 17 with 4 400 000 coupons: multiply overflow.  All three replayed on the crate. *)
 Theorem c17_cpc_flavor_u32_refuted : exists lgk c, lgk <= 26 /\ c < 2 ^ 32 /\
